@@ -552,6 +552,7 @@ TRUSTED_BASE = [
   'contracts of callees outside the cut (listed per function under callee_contracts; libstdc++/libc API contracts are assumed)',
 ]
 DROPPED = [
+  '__cxa_atexit registrations of function-local statics (the destructor run at process exit is outside every contract); the guard variable of such a static is a plain zero-initialised long (single thread)',
   'CLOBBER lifetime markers, branch-probability notes, debug statements',
   'optimisation: verified text is the -O0 lowering, the shipped library is -O2',
   'bodies of functions outside the cut are replaced by their contracts',
